@@ -1228,6 +1228,10 @@ def residual_cases(b, base, sink):
         "gen_import_other_module": aus + 'Schreibe "R0" auf eine Zeile.\nBinde "resg" ein.\nSchreibe "R1" auf eine Zeile.\nzeige 1.\nzeige "t".\n',
         "gen_import_called_in_module": aus + 'Schreibe "R0" auf eine Zeile.\nBinde h aus "resg2" ein.\nSchreibe "R1" auf eine Zeile.\nh.\nh.\n',
     }
+    # an operator overload listed only in the second selective import statement of the same module
+    progs["sel_operator_second_statement"] = aus + 'Binde eins aus "resop" ein.\nBinde betrag_text aus "resop" ein.\neins.\nSchreibe (der Betrag von "Hallo") auf eine Zeile.\n'
+    open(os.path.join(d, "resop.ddp"), "w").write(aus + 'Die öffentliche Funktion eins gibt nichts zurück, macht:\n\tSchreibe "eins" auf eine Zeile.\nUnd kann so benutzt werden:\n\t"eins"\n'
+        'Die öffentliche Funktion betrag_text mit dem Parameter t vom Typ Text, gibt eine Zahl zurück, macht:\n\tGib die Länge von t plus 1 zurück.\nUnd überlädt den "Betrag" Operator.\n')
     open(os.path.join(d, "a.ddp"), "w").write(RES_A)
     open(os.path.join(d, "resg.ddp"), "w").write(aus + gen_decl)
     open(os.path.join(d, "resg2.ddp"), "w").write(aus + gen_decl + 'Die öffentliche Funktion h gibt nichts zurück, macht:\n\tzeige 1.\nUnd kann so benutzt werden:\n\t"h"\n')
@@ -1244,12 +1248,16 @@ def residual_cases(b, base, sink):
     for n, stage, msg, lines in vlib.pmap(work, sorted(progs)):
         out[n] = stage
         rep = dict(files={"a.ddp": RES_A, n + ".ddp": progs[n]}, how="kddp kompiliere %s.ddp, link, run" % n, output=lines, compiler_output=msg[-600:])
-        kind = "forward-declared-import" if n.startswith("fwd") else "generic-function-import"
+        kind = "forward-declared-import" if n.startswith("fwd") else "selective-import-operator" if n.startswith("sel") else "generic-function-import"
         ctl = "-control" if n in ("fwd_call_after_def", "gen_control") else ""
         if stage != "ran":
             internal = "Unerwarteter Fehler" in msg or "StackTrace" in msg or "ParserError" in msg or "CompilerError" in msg
             sink.violation("residual %s%s %s" % (kind, ctl, "internal-error" if internal else "rejected"),
                            "%s: no executable (%s): %s" % (n, stage, msg.strip().splitlines()[0][:300] if msg.strip() else ""), rep)
+            continue
+        if n.startswith("sel"):
+            if lines != ["eins", "6"]:
+                sink.violation("residual %s wrong-output" % kind, "%s prints %s, expected ['eins', '6'] (the imported overload of Betrag for Text)" % (n, lines), rep)
             continue
         uses_a = n != "gen_control"
         ninit = lines.count("init a")
@@ -1260,6 +1268,67 @@ def residual_cases(b, base, sink):
         if "0" in lines:
             sink.violation("residual %s%s uninitialised-global-read" % (kind, ctl), "%s: the global of a is read before its initialiser ran: %s" % (n, lines), rep)
     return out
+
+
+def ordered_partitions(items):
+    """all ways to split items into a sequence of non-empty blocks"""
+    if not items:
+        yield []
+        return
+    first, rest = items[0], items[1:]
+    for part in ordered_partitions(rest):
+        for i in range(len(part)):
+            yield part[:i] + [[first] + part[i]] + part[i + 1:]
+        for i in range(len(part) + 1):
+            yield part[:i] + [[first]] + part[i:]
+
+
+def select_case(cid, blocks, via_module, shape):
+    """module m exports the functions foo, bar and the variable baz; the importer lists them in the given import statements
+    (one statement per block) and then CALLS every function / reads the variable"""
+    # (calls made from inside a function body are not expanded by the model: foo has a body only when the root calls it)
+    m = [("D", "baz", "v", True), ("F", "foo", True, [] if via_module else [("U", "baz", "v")]), ("F", "bar", True, []), ("D", "qux", "v", False)]
+    imps = [("I", "m", ("N", list(b))) for b in blocks]
+    uses = [("U", "foo", "f"), ("U", "bar", "f"), ("U", "baz", "v")]
+    if via_module:
+        mods = {"m": m, "x": imps + [("F", "quux", True, uses)], "r": [("M", 1), ("I", "x", ("W",)), ("M", 2), ("U", "quux", "f")]}
+    else:
+        st = [("M", 1)]
+        for k, im in enumerate(imps):
+            st += [im, ("M", 2 + k)]
+        mods = {"m": m, "r": st + uses}
+    return dict(id=cid, root="r", mods=mods, shape=shape)
+
+
+def exhaustive_select_cases():
+    """every way to list three public names of one module in one or several selective import statements of one importer
+    (the root, or an imported module whose function makes the calls)"""
+    cases = []
+    n = 0
+    for blocks in ordered_partitions(["foo", "bar", "baz"]):
+        for via in (False, True):
+            n += 1
+            cases.append(select_case("es%d" % n, blocks, via, "exhaustive_select"))
+    return cases
+
+
+def gen_multi_select_case(rng, cid):
+    names = ["foo", "bar", "baz"]
+    rng.shuffle(names)
+    parts = list(ordered_partitions(names))
+    blocks = rng.choice([p for p in parts if len(p) >= 2])
+    c = select_case(cid, blocks, rng.random() < 0.4, "multi_select")
+    if rng.random() < 0.4:
+        # a second module with the same names, imported selectively by the same importer under other names
+        c["mods"]["n"] = [("F", "qux", True, []), ("F", "foo", False, [])]
+        imp = "x" if "x" in c["mods"] else "r"
+        pos = rng.randint(0, len([s for s in c["mods"][imp] if s[0] == "I"]))
+        c["mods"][imp].insert(pos, ("I", "n", ("N", ["qux"])))
+        if imp == "r":
+            c["mods"]["r"].append(("U", "qux", "f"))
+        else:
+            c["mods"]["x"][-1] = ("F", "quux", True, c["mods"]["x"][-1][3] + [("U", "qux", "f")])
+    return c
 
 
 def stmt_to_json(s):
@@ -1445,13 +1514,14 @@ def main():
     menu = [dict(), dict(), dict(dirs=True), dict(dirs=True), dict(overlap=True), dict(repeat=True), dict(graph="diamond"), dict(graph="diamond", overlap=True),
             dict(cycle=1), dict(cycle=2), dict(cycle=3), dict(cycle=4), dict(badname=True), dict(badname=True, overlap=True),
             dict(nested=True), dict(nested=True), dict(missing=True), dict(collide=True), dict(graph="chain"), dict(graph="fan", repeat=True),
-            dict(dircycle=True), dict(dircycle=True), dict(shared_dep=True)]
+            dict(dircycle=True), dict(dircycle=True), dict(shared_dep=True), dict(multi_select=True)]
     if os.environ.get("C10_ONLY"):
         menu = [m for m in menu if os.environ["C10_ONLY"] in m]
     for i in range(n_random):
         opts = dict(menu[i % len(menu)])
-        if opts.get("nested") or opts.get("dircycle") or opts.get("shared_dep"):
-            c = gen_nested_case(rng, "g%d" % i) if opts.get("nested") else gen_dircycle_case(rng, "g%d" % i) if opts.get("dircycle") else gen_shared_dep_case(rng, "g%d" % i)
+        if opts.get("nested") or opts.get("dircycle") or opts.get("shared_dep") or opts.get("multi_select"):
+            c = (gen_nested_case(rng, "g%d" % i) if opts.get("nested") else gen_dircycle_case(rng, "g%d" % i) if opts.get("dircycle")
+                 else gen_shared_dep_case(rng, "g%d" % i) if opts.get("shared_dep") else gen_multi_select_case(rng, "g%d" % i))
             c["opts"] = opts
             c["probe"] = False
             cases.append(c)
@@ -1462,7 +1532,7 @@ def main():
         c["probe"] = probe
         add_root_uses(rng, c, probe)
         cases.append(c)
-    ex = [] if os.environ.get("C10_NOEX") else exhaustive_cases(perms=not ck.quick) + exhaustive_dir_cases(full=not ck.quick) + exhaustive4_cases()
+    ex = [] if os.environ.get("C10_NOEX") else exhaustive_cases(perms=not ck.quick) + exhaustive_dir_cases(full=not ck.quick) + exhaustive4_cases() + exhaustive_select_cases()
     for c in ex:
         add_root_uses(rng, c, False)
     cases += ex
@@ -1526,7 +1596,7 @@ def main():
         log("[note] %d model/implementation disagreements accompany the violations; first: %s: %s" % (n_mism, cid, "; ".join(mism[cid])[:600]))
     ck.cov.update(dict(
         graphs=len(cases), corpus_graphs=n_corpus, random_graphs=n_random, exhaustive_graphs=len(ex), shapes=shapes, stats=stats,
-        exhaustive="all 512 import graphs over 3 modules (9 possible edges incl. self-imports)%s; all graphs over r, d/a, d/b in which every module imports a subset of {r, d/a, d/b, the directory d} and at least one directory import occurs (%s); all 64 import graphs over three imported modules below a root that imports the first one, every order of the import statements: frontend + model on all, kddp + executable on every accepted one and a sample of the cyclic ones" % ("" if ck.quick else ", every order of the import statements (4096 programs)", "at most 2/1/1 import statements" if ck.quick else "every subset, plain and rekursiv alternating"),
+        exhaustive="all 512 import graphs over 3 modules (9 possible edges incl. self-imports)%s; all graphs over r, d/a, d/b in which every module imports a subset of {r, d/a, d/b, the directory d} and at least one directory import occurs (%s); all 64 import graphs over three imported modules below a root that imports the first one, every order of the import statements; every split of three public names of one module over one or several selective import statements (importer = root / an imported module), each listed function called: frontend + model on all, kddp + executable on every accepted one and a sample of the cyclic ones" % ("" if ck.quick else ", every order of the import statements (4096 programs)", "at most 2/1/1 import statements" if ck.quick else "every subset, plain and rekursiv alternating"),
         rule="a case is one module graph written to disk (2..7 modules); non-trivial = at least two modules reachable from the root; distinct by the complete module contents",
         model_mismatches=n_mism))
     for c in cases[n_corpus:n_corpus + 2] + cases[-1:]:
